@@ -51,6 +51,17 @@ type plan struct {
 	Limit    int64  // head size limit of the case (0 = default 10 MiB, never reached)
 	Faithful bool   // node's sync discipline (own msgs + markers WriteSync, everything else Write)
 	Ops      []op
+	// Rotator > 0: while the records are written, a second goroutine calls Group.RotateFile() up to Rotator times
+	// (what the group's ticker goroutine does concurrently in production). Whatever the interleaving, every file
+	// must begin at a record boundary; more than 999 rotations also take the file index past three digits.
+	Rotator int
+	// PreRotate: rotations made before the first record of the plan is written (the records then live in files
+	// whose index has more than three digits when PreRotate > 999).
+	PreRotate int
+	// TickAfter[n]: the rotation tick fires right after the n-th Group.Write call of the encoder has returned
+	// (the tick goroutine takes the group's lock between two Write calls; with one Write per record that is
+	// always a record boundary).
+	TickAfter map[int]bool
 }
 
 func (p *plan) describe(max int) []string {
